@@ -5,10 +5,10 @@ CONSTANTS
   Limits <- MCLimits
   HBMode = "on"
   Table = "GSUB"
-  Shapes = {"2x1", "1x2"}
+  Shapes = {"2x1"}
 INIT MInit
 NEXT RNext
 CONSTRAINTS Bounded NoStuckLig GenEmit Stat
-INVARIANTS ReturnImpliesValid RaiseOnlyWhenStuck NoCrash TerminatesInv
+INVARIANTS ReturnImpliesValid RaiseOnlyWhenStuck TerminatesInv
 PROPERTIES DenotationPreserved Progress
 CHECK_DEADLOCK TRUE
